@@ -1065,4 +1065,4 @@ func TestScripts(t *testing.T) {
 	propScripts.Check(t, n)
 }
 
-func TestReplay(t *testing.T) { kit.Replay(t, propScripts, propLargeBlocks, propHeld) }
+func TestReplay(t *testing.T) { kit.Replay(t, propScripts, propLargeBlocks, propHeld, propEdge) }
